@@ -1,0 +1,44 @@
+//! Observation points for external runtime monitors.
+//!
+//! Compiled only with the off-by-default `verif-hooks` cargo feature. A
+//! process-global hook is told when a unit of per-function work (the units
+//! that are scheduled on the thread pool under the `parallel` feature) begins
+//! and ends. The hook may record the event and may delay the calling thread;
+//! it must not touch the module.
+
+use std::sync::{Arc, RwLock};
+
+/// Signature of an observation hook: `(site, item index, is_end)`.
+pub type PointHook = Arc<dyn Fn(&'static str, usize, bool) + Send + Sync + 'static>;
+
+static HOOK: RwLock<Option<PointHook>> = RwLock::new(None);
+
+/// Install (or, with `None`, remove) the process-global observation hook.
+pub fn set_point_hook(hook: Option<PointHook>) {
+    *HOOK.write().unwrap() = hook;
+}
+
+fn fire(site: &'static str, index: usize, end: bool) {
+    let hook = HOOK.read().unwrap().clone();
+    if let Some(hook) = hook {
+        hook(site, index, end);
+    }
+}
+
+/// Reports `begin` when created and `end` when dropped.
+#[derive(Debug)]
+pub(crate) struct Span {
+    site: &'static str,
+    index: usize,
+}
+
+pub(crate) fn span(site: &'static str, index: usize) -> Span {
+    fire(site, index, false);
+    Span { site, index }
+}
+
+impl Drop for Span {
+    fn drop(&mut self) {
+        fire(self.site, self.index, true);
+    }
+}
